@@ -1,0 +1,32 @@
+//go:build verif
+
+package safehtml
+
+// Verification hooks (build tag "verif" only): thin wrappers that let a test
+// harness pass run-time strings where the public API only admits untyped
+// string constants. They call the real functions unchanged.
+
+// VerifIdentifierFromConstant calls IdentifierFromConstant.
+func VerifIdentifierFromConstant(value string) Identifier {
+	return IdentifierFromConstant(stringConstant(value))
+}
+
+// VerifIdentifierFromConstantPrefix calls IdentifierFromConstantPrefix.
+func VerifIdentifierFromConstantPrefix(prefix, value string) Identifier {
+	return IdentifierFromConstantPrefix(stringConstant(prefix), value)
+}
+
+// VerifScriptFromDataAndConstant calls ScriptFromDataAndConstant.
+func VerifScriptFromDataAndConstant(name string, data interface{}, script string) (Script, error) {
+	return ScriptFromDataAndConstant(stringConstant(name), data, stringConstant(script))
+}
+
+// VerifStyleFromConstant calls StyleFromConstant.
+func VerifStyleFromConstant(style string) Style {
+	return StyleFromConstant(stringConstant(style))
+}
+
+// VerifTrustedResourceURLFormatFromConstant calls TrustedResourceURLFormatFromConstant.
+func VerifTrustedResourceURLFormatFromConstant(format string, args map[string]string) (TrustedResourceURL, error) {
+	return TrustedResourceURLFormatFromConstant(stringConstant(format), args)
+}
